@@ -4,6 +4,7 @@ import (
 	"flag"
 	"fmt"
 	"os"
+	"reflect"
 	"sort"
 	"strconv"
 	"strings"
@@ -13,7 +14,21 @@ import (
 // property id -> rule functions
 var registry = map[string][]func(*Ctx){}
 
-func register(prop string, fns ...func(*Ctx)) { registry[prop] = append(registry[prop], fns...) }
+// register adds rules to a property's rule set; a rule that is already there is not added twice (several init functions
+// may name the same rule for the same property).
+func register(prop string, fns ...func(*Ctx)) {
+	for _, fn := range fns {
+		dup := false
+		for _, have := range registry[prop] {
+			if reflect.ValueOf(have).Pointer() == reflect.ValueOf(fn).Pointer() {
+				dup = true
+			}
+		}
+		if !dup {
+			registry[prop] = append(registry[prop], fn)
+		}
+	}
+}
 
 func main() {
 	repo := flag.String("repo", "/repo", "path of the genql working tree to analyse")
